@@ -447,4 +447,88 @@ theorem exec_deterministic (cfg : Config W) (fuel : Nat) (P : List Stmt) (base :
     (h : st = st') : execute cfg fuel P base st = execute cfg fuel P base st' := by rw [h]
 
 
+/-! ## non-vacuity: concrete programs on the concrete host of the driver -/
+
+section Examples
+open HostImpl
+
+/-- what a test observes of a run -/
+structure Obs where
+  kind : String
+  err : Option RtErr
+  val : Option Value
+  count : Nat
+  log : List String
+  globals : Env
+deriving DecidableEq, Repr
+
+def obs : Res World → Obs
+  | .done st => ⟨"done", none, none, st.count, st.world.log, st.globals⟩
+  | .ret v st => ⟨"ret", none, some v, st.count, st.world.log, st.globals⟩
+  | .err e st => ⟨"err", some e, none, st.count, st.world.log, st.globals⟩
+  | .oof => ⟨"oof", none, none, 0, [], []⟩
+
+def xcfg (funs : List (Nat × FuncDef)) (max : Nat := 0) : Config World :=
+  { host := host, funs := fun id => (funs.find? (·.1 == id)).map (·.2), maxStatements := max }
+
+def g0 : State World := { globals := [(.user "systemLog", .fn (.lib "systemLog"))], world := {}, count := 0 }
+
+def L1 : Name := .user "L1"
+def L2 : Name := .user "L2"
+def logS (s : String) : Stmt := .expr none (.function (.user "systemLog") [.string s])
+
+/-- duplicate labels: the first wins.  `jump L1; log a; L1:; log b; L1:; log c` logs b, c (not just c). -/
+example : (obs (execute (xcfg []) 20 [.jump L1 none, logS "a", .label L1, logS "b", .label L1, logS "c"] none g0)).log
+    = ["b", "c"] := by decide
+
+/-- … and the cached second jump goes to the same (first) label: a loop around two `L1` labels -/
+example : obs (execute (xcfg []) 40
+      [.expr (some (.user "x")) (.number 3), .label L1, logS "b", .label L1,
+       .expr (some (.user "x")) (.binary .sub (.variable (.user "x")) (.number 1)),
+       .jump L1 (some (.variable (.user "x")))] none g0)
+    = ⟨"done", none, none, 14, ["b", "b", "b"], g0.globals ++ [(.user "x", .num 0)]⟩ := by decide +kernel
+
+/-- unknown label: the error, raised when (and only when) the jump is taken -/
+example : obs (execute (xcfg []) 20 [logS "a", .jump L2 none, .label L1] none g0)
+    = ⟨"err", some (.unknownLabel L2), none, 2, ["a"], g0.globals⟩ := by decide
+
+example : (obs (execute (xcfg []) 20 [.jump L2 (some (.variable (.user "false"))), .label L1, logS "a"] none g0)).log
+    = ["a"] := by decide
+
+def fBody : List Stmt := [.label L1, logS "in f", .ret (some (.number 7)), logS "dead"]
+def fDef : FuncDef := { name := .user "f", args := [], lastArgArray := false, body := fBody }
+
+/-- **label_in_function_not_visible**: a global jump to a label defined only inside a function body errs … -/
+example : obs (execute (xcfg [(0, fDef)]) 20 [.function 0 (.user "f") [] false false fBody, .jump L1 none] none g0)
+    = ⟨"err", some (.unknownLabel L1), none, 2, [], g0.globals ++ [(.user "f", .fn (.script 0))]⟩ := by decide
+
+/-- … and a jump inside the body cannot reach a label of the caller (the body has no `L2`) -/
+example : (obs (execute (xcfg [(0, { fDef with body := [.jump L2 none] })]) 20
+      [.function 0 (.user "f") [] false false [.jump L2 none], .label L2,
+       .expr none (.function (.user "f") [])] none g0)).err
+    = some (.unknownLabel L2) := by decide
+
+/-- return ends only the function: the caller logs the returned value and goes on -/
+example : obs (execute (xcfg [(0, fDef)]) 20
+      [.function 0 (.user "f") [] false false fBody,
+       .expr (some (.user "r")) (.function (.user "f") []), logS "after", .ret (some (.variable (.user "r"))), logS "dead"]
+      none g0)
+    = ⟨"ret", none, some (.num 7), 7, ["in f", "after"],
+       g0.globals ++ [(.user "f", .fn (.script 0)), (.user "r", .num 7)]⟩ := by decide
+
+/-- the hypotheses of the one-step lemmas are inhabited -/
+example : BudgetOk (xcfg [] 5) g0 := by unfold BudgetOk; decide
+example : ¬ BudgetOk (xcfg [] 5) { g0 with count := 5 } := by unfold BudgetOk; decide
+example : CacheValid [.jump L1 none, .label L2, .label L1, .label L1] [(L1, 2), (L2, 1)] := by
+  intro l i h
+  simp at h
+  rcases h with ⟨rfl, rfl⟩ | ⟨rfl, rfl⟩ <;> decide
+example : ¬ CacheValid [.label L1, .label L1] [(L1, 1)] := by
+  intro h
+  have := h L1 1 (by simp)
+  revert this
+  decide
+
+end Examples
+
 end C08
